@@ -257,6 +257,9 @@ def script(args: typing.List[str], witness: bool = False) -> bytes:
                 else:
                     raise ValueError("too much data to push!")
                 op_push += data_len.to_bytes(no_bytes, "little")
+            elif witness:
+                # witness stack item length is a compact size uint
+                op_push = bits.compact_size_uint(data_len)
             else:
                 op_push = len(data).to_bytes(1, "little")
             scriptbytes += op_push
@@ -286,11 +289,12 @@ def decode_script(
 
     while scriptbytes:
         if witness:
-            push = scriptbytes[0]
-            data = scriptbytes[1 : 1 + push]
-            parsed_bytes += scriptbytes[: 1 + push]
+            # witness stack item length is a compact size uint
+            push, item_bytes = bits.parse_compact_size_uint(scriptbytes)
+            data = item_bytes[:push]
+            parsed_bytes += scriptbytes[: len(scriptbytes) - len(item_bytes) + push]
             decoded.append(data.hex())
-            scriptbytes = scriptbytes[1 + push :]
+            scriptbytes = item_bytes[push:]
             witness_stack_len -= 1
             if not witness_stack_len:
                 if parse:
